@@ -88,6 +88,19 @@ def replay (j : Json) : R Verdict := do
     | some _, none => pf := pf ++ ["C14: records with a value exist but there is no (valid) best-seen file", "C16: records with a value exist but there is no (valid) best-seen file"]
     | none, some _ => pf := pf ++ ["C14: a best-seen file exists without any record with a value"]
     | none, none => pure ()
+  -- C14: every record carries the individual id and the seed of an evaluation that took place (as a pair)
+  match (fieldD j "rowPairs").getArr?.toOption, (fieldD j "callPairs").getArr?.toOption with
+  | some rp, some cp =>
+    let calls := cp.toList.map (·.compress)
+    if (fieldD j "sampleSize").getNat?.toOption.getD 1 > 1 then tags := "run:sampled-records" :: tags
+    if cp.toList.any (fun c => match c.getArr?.toOption with | some a => a[0]!.compress != a[1]!.compress | none => false) then tags := "run:id-differs-from-seed" :: tags
+    let mut k := 0
+    for r in rp do
+      if !calls.contains r.compress then
+        if !(pf.any (fun f => f.startsWith "C14: record")) then
+          pf := pf ++ [s!"C14: record {k} of the detailed report carries (seed, individual id) = {r.compress}, which is not the seed and id of any evaluation of the run"]
+      k := k + 1
+  | _, _ => pure ()
   -- `AlgoConfigBuilder::build` against `Launch.buildConfig`
   for cj in ((fieldD j "configs").getArr?.toOption.getD #[]) do
     let ssO := (fieldD cj "ss").getNat?.toOption
